@@ -6,9 +6,12 @@
     is dumped and EVERY instance is executed on the real code (harness/savable_real.py) and compared with the expectation;
 (3) the census of instances on which a declarative property fails is reported per deviation clause.
 
-Families of instances: A (decorator chains x member kinds x loader configurations x unknown class names), B (decorator | hook
+Families of instances: A (decorator chains x member kinds - among them futures in every state, resolved with a mutable value, a
+tuple, None or a falsy value - x loader configurations x unknown class names, rewritten in the state or REMOVED FROM THE MODULE after
+the save), B (decorator | hook
 declarations x order of use), C (loader configurations incl. the alias loader x unknown class / unknown RECORDED LOADER x how
-the load context is supplied (None | one shared loader-less LoadSaveContext) x which bundle went through it before).
+the load context is supplied (None | one shared loader-less LoadSaveContext) x which bundle went through it before; the class or the
+recorded loader's class may also be removed from the module between save and load).
 """
 import collections
 import json
@@ -29,19 +32,19 @@ VERIF = os.path.dirname(os.path.dirname(os.path.dirname(os.path.abspath(__file__
 FIXES = ['FL1', 'FL2', 'FL3', 'FFC', 'FH1']      # repaired in /repo: d4b788d (FL1, FL2), 8989551 (FL3), 79c2991 (FFC), FH1 (persist() hook leak)
 ALL_FIXES = ['FL1', 'FL2', 'FL3', 'FFC', 'FH1']
 DEVIATIONS = ['D19a', 'D19b', 'D19c', 'D19d']
-KINDS = ['value', 'none', 'method', 'tuple', 'sav1', 'sav2', 'futP', 'futR', 'futT', 'futE', 'futC']
-KINDS6 = ['value', 'method', 'tuple', 'sav2', 'futT', 'futC']      # for the largest chains (members are saved independently of each other)
+KINDS = ['value', 'none', 'method', 'tuple', 'sav1', 'sav2', 'futP', 'futR', 'futT', 'futE', 'futC', 'futN', 'futZ']
+KINDS6 = ['value', 'method', 'tuple', 'sav2', 'futT', 'futC']      # for the largest chains; futN / futZ (None / falsy results) are in the complete runs over KINDS (members are saved independently of each other)
 # family A: decorator-declared chains x every member kind x loader configurations x unknown class names
 FAM_A = dict(kinds=KINDS, loaders=None, unknowns=None, ways=['deco'], orders=[])
 # family B: how members are declared (decorator | persist() hook) x which other class of the chain was used first x copied values
 FAM_B = dict(kinds=['value', 'method', 'tuple'], loaders=['default'], unknowns=[], ways=['deco', 'hook'], orders=['parent', 'child'])
 LOADERS = ['default', 'global', 'persave', 'ctxboth']
-UNKNOWNS = ['noattr', 'malformed', 'nocls', 'nometa', 'nested']
+UNKNOWNS = ['noattr', 'malformed', 'nocls', 'nometa', 'nested', 'gone']      # 'gone': the class is removed from the module after the save
 # family C: the SESSION - every loader configuration (also a loader writing identifiers the default loader resolves too, to another
 # class) x unknown class / unknown recorded loader x load context None | one shared loader-less object x a bundle saved with another
 # loader loaded through it before x order of use (up to three loads through one context)
 LOADERS_C = LOADERS + ['peralias']
-FAM_C = dict(kinds=['value', 'sav1'], loaders=LOADERS_C, unknowns=['noattr', 'noldr', 'badldr'], ways=['deco'], orders=['parent'],
+FAM_C = dict(kinds=['value', 'sav1'], loaders=LOADERS_C, unknowns=['noattr', 'noldr', 'badldr', 'gone', 'ldrgone'], ways=['deco'], orders=['parent'],
              ctxs=['shared'], priors=['plain', 'custom'])
 PROPS = ['RoundTrip', 'ValuesEqual', 'CopiedAtSave', 'MethodsRebound', 'NestedRecreated', 'FutureState', 'LoaderPrecedence',
          'UnknownIsValueError', 'SetsIntact', 'ContextIsCallers']
@@ -390,7 +393,8 @@ def run(tier, seed):
         'states': max(states, 1), 'transitions': max(transitions, 1), 'traces_validated_against_impl': replayed,
         'samples': samples or [{'note': 'nothing replayed'}], 'evaluations': replayed, 'distinct_nontrivial': nontrivial,
         'rule': 'instance = (chain of <=MaxChain classes each declaring nothing, @auto_persist(subset of Names) or a persist() hook calling '
-                'cls.auto_persist(subset), instantiated class, kind of every persisted member, loader configuration, unknown-class flavour, '
+                'cls.auto_persist(subset), instantiated class, kind of every persisted member, loader configuration, unknown-class flavour (identifier '
+                'rewritten in the saved state | class or recorded loader class removed from the module after the save), '
                 'which other class of the chain was saved+loaded first, how the load context is supplied (as the configuration says | one shared '
                 'loader-less LoadSaveContext for every load), which bundle was loaded through it before (none | saved plainly | saved with the '
                 'custom loader)); family A = decorators x kinds %s x loaders %s x unknown names; '
@@ -411,13 +415,16 @@ def run(tier, seed):
         'the custom loader uses an identifier scheme disjoint from DefaultObjectLoader\'s and raises ValueError for anything it cannot resolve',
         'the alias loader (configuration peralias) writes the legacy name L<i> for the chain class K<i> in DefaultObjectLoader\'s own format; '
         'the module holds stand-in Savables L1..L3 under those names, so the default loader resolves the same identifier to a different class',
-        'an unavailable recorded loader is modelled by rewriting the recorded identifier (unknown name | unknown format), not by unloading a module',
+        'an unavailable class / recorded loader is modelled by rewriting the identifier in the saved state (unknown name | unknown format) '
+        'and by removing the class (gone) / the loader class (ldrgone) from the module between the save and the load, the saved state left as '
+        'it is and the global loader object living on; replacing a class by a new class of the same name (reload) is not modelled',
+        'futures: pending, cancelled, failed, and resolved with a mutable value, a tuple holding one, None (futN) or the empty string (futZ)',
         'a session makes at most three loads (prior bundle, another class of the chain, the bundle under test) through one load context; the '
         'caller\'s context is observed through its public attribute `loader`',
         'nested Savables: helper classes N1 (value, method) and N2 (value, N1, resolved future): nesting depth 2',
         'exception objects held by futures are compared by tag, and are not mutated after the save',
         'thorough: model-checked completely are 3 classes x 3 names (family A with 6 member kinds, family B), 2 classes x 3 names and '
-        '3 classes x 2 names (family A, all 11 kinds); executed on the real code are the complete two-name universes of both families plus '
+        '3 classes x 2 names (family A, all %d kinds)' % len(KINDS) + '; executed on the real code are the complete two-name universes of both families plus '
         'all instances of seeded samples of the three-name chains',
     ])
     return 1 if violations else 0
